@@ -15,7 +15,14 @@ def _alarm(*a):
 
 
 def shaper_kwargs(cfg):
-    kw = dict(instantiation_property=cfg['inst_prop'],
+    sp = cfg.get('inst_prop_spelled')
+    if sp and not sp.startswith('<'):
+        # a prefixed spelling only means the property when this configuration's namespaces_dict declares that prefix for its namespace
+        pre, loc = sp.split(':', 1)
+        back = {v: k for k, v in (cfg.get('ns_dict') or {}).items()}
+        if back.get(pre) is None or back[pre] + loc != cfg['inst_prop']:
+            sp = None
+    kw = dict(instantiation_property=sp or cfg['inst_prop'],
               namespaces_dict=dict(cfg['ns_dict']),
               all_instances_are_compliant_mode=cfg['all_compliant'],
               keep_less_specific=cfg['keep_less_specific'],
